@@ -2,7 +2,7 @@
   C04, object-layer memory safety as theorems — third continuation (same statement shape `Safe` as C04_allocsafe{,2,3}.lean:
   `ok = true`, destination well formed, every other variable untouched, value-level view = the list-level result; plus the
   integer identity).  Property theorems only; helper lemmas live in MpirProofs/Lemmas/AllocSafeCfdiv2.lean (mpz/cfdiv_q_2exp.c),
-  AllocSafeAorsmul.lean (mpz/aorsmul_i.c, aorsmul.c), AllocSafeMulC.lean (mpz/mul.c), AllocSafeTdiv.lean (mpz/tdiv_q.c, tdiv_r.c), AllocSafeMpf.lean (mpf/urandomb.c).
+  AllocSafeAorsmul.lean (mpz/aorsmul_i.c, aorsmul.c), AllocSafeMulC.lean (mpz/mul.c), AllocSafeTdiv.lean (mpz/tdiv_q.c, tdiv_r.c), AllocSafeMpf.lean (mpf/urandomb.c), AllocSafeSqrt.lean (mpz/sqrt.c).
 
   Models: Mpir/Model/AllocSafeMpz3.lean (cfdiv_q_2exp), Mpir/Model/AllocSafeMpz4.lean (everything else here).
   Tied by ops `as3_cdiv_q_2exp`, `as3_fdiv_q_2exp` (part c04_allocsafe3) and `as4_*` (harness/ops_allocsafe4.c; ALLOC SIZ value
@@ -14,6 +14,7 @@ import MpirProofs.Lemmas.AllocSafeAorsmul
 import MpirProofs.Lemmas.AllocSafeMulC
 import MpirProofs.Lemmas.AllocSafeTdiv
 import MpirProofs.Lemmas.AllocSafeMpf
+import MpirProofs.Lemmas.AllocSafeSqrt
 import MpirProofs.Props.C01_mpz
 namespace Mpir.AllocSafe
 open Mpir
@@ -274,5 +275,33 @@ example : (mpf_urandomb 0 (mkF 2) (.mt Rand.mtDefault) 200).1.ok = true :=
   (mpf_urandomb_dest_safe _ _ _ rfl ⟨by simp [mkF, Buf.new], rfl⟩).1
 example : (mpf_urandomb 1 (mkF 2) (.mt Rand.mtDefault) 200).1.ok = false :=
   mpf_urandomb_seeded_unsafe _ _ _ ⟨by simp [mkF, Buf.new], rfl⟩ (by decide)
+
+/-! ## mpz_sqrt (mpz/sqrt.c) -/
+
+/-- mpz_sqrt (mpz/sqrt.c), op ≥ 0 (the C raises SQRT_OF_NEGATIVE otherwise), every allocation, root == op included: the root
+    gets a FRESH block of exactly `(op_size + 1) / 2` limbs when its block is smaller (contents not copied: then root is not
+    op), op is copied to temporary space when it is root; `(op_size + 1) / 2` is exactly what mpn_sqrtrem stores and exactly
+    the size of ⌊√op⌋ ("The size of the root is accurate after this simple calculation").  Stated for both values of `retain`:
+    the `free_me` arm cannot be reached. -/
+theorem mpz_sqrt_alloc_safe (retain : Bool) (s : St) (root op : Nat) (hs : s.ok = true)
+    (hr : OWF (s.h root)) (ho : OWF (s.h op)) (hpos : 0 ≤ (s.h op).size) :
+    ∃ s', sqrt_ retain s root op = some s' ∧
+      Safe s s' root (Spec.sqrt (view (s.h root)) (view (s.h op))) ∧
+      Mpz.toInt (view (s'.h root)) = ((Nat.sqrt (Mpz.toInt (view (s.h op))).toNat : Nat) : Int) := by
+  obtain ⟨s', e, R⟩ := sqrt_refines retain s root op hs hr ho hpos
+  have E := Spec.sqrt_spec (view (s.h root)) (view (s.h op)) hr.2.1 ho.2 hpos
+  exact ⟨s', e, R.safe E.1, by rw [R.view]; exact E.2⟩
+
+/-- necessary-or-harmless: the `free_me` bookkeeping of sqrt.c:53-57, 85-86 is dead code — a variable that is both root and op
+    already owns `op_size ≥ (op_size + 1) / 2` limbs. -/
+theorem mpz_sqrt_free_me_dead (s : St) (root op : Nat) (ho : OWF (s.h op)) :
+    sqrt_ false s root op = sqrt_ true s root op := sqrt_free_me_dead s root op ho
+
+-- √(B^3 - 1) = B·2^32 - 1 … (two limbs) into the one-limb variable (fresh block of 2), and in place (temporary copy, block kept)
+example : (mpz_sqrt ex5 0 1).map (fun s => (s.ok, (s.ALLOC 0, (s.h 0).size))) = some (true, (2, 2)) := by decide
+example : (mpz_sqrt ex5 1 1).map (fun s => (s.ok, (s.ALLOC 1, (s.h 1).size))) = some (true, (3, 2)) := by decide
+example : mpz_sqrt ⟨fun _ => ⟨-1, 0, ⟨1, [4]⟩⟩, true⟩ 0 1 = none := by decide
+-- negative: a root block of one limb less — mpn_sqrtrem's store leaves it
+example : (sqrtTail (freshBlock ex5 0 1) 0 (.ptr (ex5.PTR 1)) 3 2).ok = false := by decide
 
 end Mpir.AllocSafe
